@@ -213,156 +213,11 @@ var oraclesC18 = []string{"no-panic/terminates", "output-is-prefix", "no-report-
 
 type gen18 struct{ r *common.RNG }
 
-var spaceAtoms = []string{" ", " ", " ", "\n", "\n", "\t", "\r\n", "  ", "\n\n", "\r"}
-var commentAtoms = []string{"// c\n", "//\n", "// import \"no\"\n", "/* c */", "/**/", "/***/", "/*/ x */", "/* a\n b */", "/* \"q\" `r` */", "// é ü\n", "/* import ( */", "//go:build x\n", "// +build x\n"}
-
-func (g *gen18) trivia(min int) string {
-	n := min + g.r.Intn(3)
-	if g.r.Chance(1, 2) {
-		n = min
-	}
-	var b strings.Builder
-	for i := 0; i < n; i++ {
-		if g.r.Chance(1, 4) {
-			b.WriteString(common.Pick(g.r, commentAtoms))
-		} else {
-			b.WriteString(common.Pick(g.r, spaceAtoms))
-		}
-	}
-	return b.String()
-}
-
-// trivia without semicolons / newlines that would end the package clause early is not needed:
-// `package` <trivia> ident accepts newlines; but a ';' between `package` and the name is a syntax
-// error for go/parser, so the separators inside clauses avoid ';'.
-func (g *gen18) inner(min int) string {
-	s := g.trivia(min)
-	s = strings.ReplaceAll(s, ";", " ")
-	return s
-}
-
-// innerNoNL: separators inside an import spec: a newline after the name or after `import` would
-// make go/parser insert a semicolon only after an identifier-like token ("import\n" is fine, "x\n"
-// is not), so specs keep name and path on one line.
-func (g *gen18) innerNoNL(min int) string {
-	n := min + g.r.Intn(3)
-	if g.r.Chance(1, 2) {
-		n = min
-	}
-	var b strings.Builder
-	for i := 0; i < n; i++ {
-		b.WriteString(common.Pick(g.r, []string{" ", " ", "\t", "  ", "/* c */", "/**/", "/*/ x */", "/* \"q\" */"}))
-	}
-	return b.String()
-}
-
 var identAtoms = []string{"p", "main", "x", "_x", "a1", "é", "Ünï", "foo_bar", "imports", "i", "importx", "_"}
 var pathAtoms = []string{"fmt", "os", "a/b", "x.y/z-w", "github.com/a/b", "a", "golang.org/x/tools/txtar", "é/ü", "a_b", "0"}
 
-func (g *gen18) path() (lit string) {
-	p := common.Pick(g.r, pathAtoms)
-	switch g.r.Intn(6) {
-	case 0:
-		return "`" + p + "`"
-	case 1: // escapes that denote valid path characters
-		var b strings.Builder
-		b.WriteByte('"')
-		for i := 0; i < len(p); i++ {
-			c := p[i]
-			if c < 0x80 && g.r.Chance(1, 3) {
-				switch g.r.Intn(3) {
-				case 0:
-					fmt.Fprintf(&b, "\\x%02x", c)
-				case 1:
-					fmt.Fprintf(&b, "\\%03o", c)
-				default:
-					fmt.Fprintf(&b, "\\u%04x", c)
-				}
-			} else {
-				b.WriteByte(c)
-			}
-		}
-		b.WriteByte('"')
-		return b.String()
-	default:
-		return `"` + p + `"`
-	}
-}
-
-func (g *gen18) spec(paths *[]string) string {
-	var b strings.Builder
-	switch g.r.Intn(6) {
-	case 0:
-		b.WriteString("." + g.innerNoNL(0))
-	case 1:
-		b.WriteString("_" + g.innerNoNL(0))
-	case 2, 3:
-		id := common.Pick(g.r, identAtoms)
-		b.WriteString(id + g.innerNoNL(0))
-	}
-	p := g.path()
-	*paths = append(*paths, p)
-	b.WriteString(p)
-	return b.String()
-}
-
 var restAtoms = []string{"", "func f() {}\n", "var x = 1\n", "type T int\n", "const c = \"import\"\n", "func init() { println(\"import (\") }\n",
 	"var i = 1\n", "type i interface{}\n"}
-
-// file renders one import section followed by declarations; paths are the expected literals.
-func (g *gen18) file() (src []byte, paths []string) {
-	var b strings.Builder
-	if g.r.Chance(1, 8) {
-		b.Write(bomBytes)
-	}
-	b.WriteString(g.trivia(0))
-	b.WriteString("package")
-	b.WriteString(g.inner(1))
-	pkg := common.Pick(g.r, identAtoms)
-	if pkg == "_" {
-		pkg = "p"
-	}
-	b.WriteString(pkg)
-	nd := g.r.Intn(4)
-	term := func() string { // what ends a clause: newline or ';' (go/parser needs one of them)
-		return common.Pick(g.r, []string{"\n", "\n", ";", " ;", "\n\n", " // c\n", "\r\n"})
-	}
-	rest := common.Pick(g.r, restAtoms)
-	if nd > 0 || rest != "" || g.r.Chance(1, 2) {
-		b.WriteString(term())
-	}
-	for i := 0; i < nd; i++ {
-		b.WriteString(g.trivia(0))
-		b.WriteString("import")
-		if g.r.Chance(1, 2) {
-			sep := g.innerNoNL(0)
-			b.WriteString(sep)
-			b.WriteString("(")
-			ns := g.r.Intn(4)
-			b.WriteString(g.trivia(0))
-			for j := 0; j < ns; j++ {
-				b.WriteString(g.spec(&paths))
-				if j < ns-1 || g.r.Chance(3, 4) {
-					b.WriteString(term())
-				}
-				b.WriteString(g.trivia(0))
-			}
-			b.WriteString(")")
-		} else {
-			// a named or plain single import; an identifier name needs a separator after `import`
-			s := g.spec(&paths)
-			sep := g.innerNoNL(0)
-			if sep == "" && (s[0] != '"' && s[0] != '`' && s[0] != '.') {
-				sep = " "
-			}
-			b.WriteString(sep + s)
-		}
-		b.WriteString(term())
-	}
-	b.WriteString(g.trivia(0))
-	b.WriteString(rest)
-	return []byte(b.String()), paths
-}
 
 const mutAlphabet = "\"`/*\n;()._ i\\\x00"
 
@@ -504,14 +359,45 @@ func runC18(rn *runner) {
 		nGen, nMut, nRaw = 300000, 150000, 150000
 	}
 	var keep [][]byte
+	var greqs, gwant []string
+	var gsrc [][]byte
 	for i := 0; i < nGen; i++ {
-		src, paths := g.file()
+		sec, rest := g.section()
+		src := []byte(sec.render() + rest)
+		paths := sec.paths()
 		if paths == nil {
 			paths = []string{}
 		}
 		rn.caseC18(src, "grammar", paths)
+		// the same section in the terms of the Coq grammar G: the model must find it well-formed,
+		// render it to the same bytes and list the same paths
+		greqs = append(greqs, sec.serialise(rest))
+		w := []string{"G", "true", common.Hex([]byte(sec.render())), fmt.Sprint(len(paths))}
+		for _, p := range paths {
+			w = append(w, common.Hex([]byte(p)))
+		}
+		gwant = append(gwant, strings.Join(append(w, common.Hex([]byte(sec.renderBody()))), " "))
+		gsrc = append(gsrc, src)
 		if i%4 == 0 {
 			keep = append(keep, src)
+		}
+		if len(greqs) >= 2000 || i == nGen-1 {
+			rn.flush()
+			ans, err := rn.m.Ask(greqs)
+			if err != nil {
+				res.Notes = append(res.Notes, "model error on grammar requests: "+err.Error())
+			}
+			for j := range ans {
+				res.Count("grammar:section-checked-by-the-Coq-grammar")
+				if ans[j] != gwant[j] {
+					res.Count("mismatch:grammar")
+					res.Violate(common.Violation{Kind: "correspondence", Oracle: "grammar G (wf_section / render / paths)",
+						Input: map[string]string{"x": common.Hex(gsrc[j]), "x_text": fmt.Sprintf("%q", gsrc[j]), "request": clip(greqs[j])},
+						Model: clip(ans[j]), Impl: clip(gwant[j]), Key: "grammar:" + common.Hex(gsrc[j]),
+						Detail: "the generated import section is not a well-formed member of the Coq grammar G with the same rendering and paths"})
+				}
+			}
+			greqs, gwant, gsrc = greqs[:0], gwant[:0], gsrc[:0]
 		}
 	}
 	for i := 0; i < nMut; i++ {
@@ -521,6 +407,6 @@ func runC18(rn *runner) {
 		rn.caseC18(genRaw(r), "random", nil)
 	}
 	res.Exhaustive = false
-	res.Rule = fmt.Sprintf("corpus; %d hand-written inputs, each also with a BOM in front; %d grammar-based Go files (optional BOM, trivia = blanks/newlines/semicolons/line and block comments, package clause, 0-3 import declarations single or grouped, specs plain/named/./_, raw, interpreted and escaped path literals, followed by declarations), every one validated by go/parser (accepted, same import literals); %d byte-level mutations of such files; %d random token/byte soups (NUL, partial BOM, unterminated strings and comments). Non-trivial: go/parser accepts, or the reader reports imports or an error. Oracles: no panic / termination under a 20 s watchdog; output is a prefix of the input (BOM aside); syntax error with report=true => whole input and nil error with report=false (NUL error allowed when the input contains NUL); whenever go/parser accepts the input, same unquoted import paths in order with a nil error, and the returned prefix parses (ImportsOnly) to the same imports.",
+	res.Rule = fmt.Sprintf("corpus; %d hand-written inputs, each also with a BOM in front; %d grammar-based Go files (optional BOM, trivia = blanks/newlines/semicolons/line and block comments, package clause, 0-3 import declarations single or grouped, specs plain/named/./_, raw, interpreted and escaped path literals, followed by declarations), every one generated as an abstract section of the Coq grammar G, found well-formed (wf_section) and rendered to the same bytes with the same paths by the extracted model, and validated by go/parser (accepted, same import literals); %d byte-level mutations of such files; %d random token/byte soups (NUL, partial BOM, unterminated strings and comments). Non-trivial: go/parser accepts, or the reader reports imports or an error. Oracles: no panic / termination under a 20 s watchdog; output is a prefix of the input (BOM aside); syntax error with report=true => whole input and nil error with report=false (NUL error allowed when the input contains NUL); whenever go/parser accepts the input, same unquoted import paths in order with a nil error, and the returned prefix parses (ImportsOnly) to the same imports.",
 		len(handC18), nGen, nMut, nRaw)
 }
